@@ -519,4 +519,47 @@ def T_guardcontinue(src):
     return _apply(src, _GuardContinue)
 
 
-ALL = {"log-lines": T_log, "unused-local": T_nooplocal, "add-docstrings": T_docstring, "mirror-comparisons": T_mirror, "pass": T_pass, "const-swap": T_const, "if-not": T_ifnot, "return-temp": T_rettmp, "kwargs-order": T_kwargs, "rename-locals": T_rename, "augassign-expanded": T_augexpand, "elif-as-nested-if": T_elifnest, "in-tuple-vs-list": T_tuplelist, "ternary-as-if": T_ternary, "else-after-exit": T_elseafterexit, "argument-temp": T_argtemp, "swap-independent-assignments": T_swapindependent, "condition-temp": T_condtemp, "guard-continue": T_guardcontinue}
+
+class _EmptyLiteral(ast.NodeTransformer):
+    """dict() -> {}, list() -> [], tuple() -> ()   (ruff/flake8-comprehensions C408, the direction a linter rewrites)"""
+    n = 0
+
+    def visit_Call(self, n):
+        self.generic_visit(n)
+        if isinstance(n.func, ast.Name) and not n.args and not n.keywords and n.func.id in ("dict", "list", "tuple"):
+            self.n += 1
+            return ast.copy_location({"dict": ast.Dict(keys=[], values=[]), "list": ast.List(elts=[], ctx=ast.Load()), "tuple": ast.Tuple(elts=[], ctx=ast.Load())}[n.func.id], n)
+        return n
+
+
+def T_emptyliteral(src):
+    return _apply(src, _EmptyLiteral)
+
+
+
+class _GuardReturn(ast.NodeTransformer):
+    """def f(..):                        def f(..):
+           ...                 ->            ...
+           if c: body                        if not c: return
+                                             body
+    (the trailing `if` without else of a function body written as a guard clause; falling off the end and `return` are the same)"""
+    n = 0
+
+    def visit_FunctionDef(self, node):
+        self.generic_visit(node)
+        b = node.body
+        is_gen = any(isinstance(x, (ast.Yield, ast.YieldFrom)) for x in ast.walk(node))
+        if not is_gen and len(b) >= 2 and isinstance(b[-1], ast.If) and not b[-1].orelse and not isinstance(b[-1].test, ast.NamedExpr) \
+                and not any(isinstance(x, (ast.FunctionDef, ast.ClassDef)) for x in b[-1].body):
+            last = b[-1]
+            guard = ast.copy_location(ast.If(test=ast.UnaryOp(op=ast.Not(), operand=last.test), body=[ast.copy_location(ast.Return(value=None), last)], orelse=[]), last)
+            node.body = b[:-1] + [guard] + last.body
+            self.n += 1
+        return node
+
+
+def T_guardreturn(src):
+    return _apply(src, _GuardReturn)
+
+
+ALL = {"log-lines": T_log, "unused-local": T_nooplocal, "add-docstrings": T_docstring, "mirror-comparisons": T_mirror, "pass": T_pass, "const-swap": T_const, "if-not": T_ifnot, "return-temp": T_rettmp, "kwargs-order": T_kwargs, "rename-locals": T_rename, "augassign-expanded": T_augexpand, "elif-as-nested-if": T_elifnest, "in-tuple-vs-list": T_tuplelist, "ternary-as-if": T_ternary, "else-after-exit": T_elseafterexit, "argument-temp": T_argtemp, "swap-independent-assignments": T_swapindependent, "condition-temp": T_condtemp, "guard-continue": T_guardcontinue, "empty-literal": T_emptyliteral, "guard-return": T_guardreturn}
